@@ -27,6 +27,10 @@ type FakeSQL struct {
 	// Unsupported collects statements outside the fake's grammar: the harness reports them as a gap of the
 	// machinery (exit 2), never as a violation of the property.
 	Unsupported []string
+	// FailFetch: every second query is accepted but fails while its first row is fetched (a connection error in the
+	// middle of a result set): Rows.Next returns false and Rows.Err reports the error.
+	FailFetch bool
+	queries   int
 }
 
 type SQLTable struct {
@@ -285,6 +289,10 @@ func (s *fakeStmt) Query(args []driver.Value) (driver.Rows, error) {
 			out = out[:n]
 		}
 	}
+	e.queries++
+	if e.FailFetch && e.queries%2 == 1 {
+		return &fakeRows{cols: cols, rows: out, fail: true}, nil
+	}
 	return &fakeRows{cols: cols, rows: out}, nil
 }
 
@@ -292,11 +300,17 @@ type fakeRows struct {
 	cols []string
 	rows []map[string]driver.Value
 	i    int
+	fail bool
 }
+
+var errFetch = errors.New("fakesql: connection lost while fetching the result set")
 
 func (r *fakeRows) Columns() []string { return r.cols }
 func (r *fakeRows) Close() error      { return nil }
 func (r *fakeRows) Next(dest []driver.Value) error {
+	if r.fail {
+		return errFetch
+	}
 	if r.i >= len(r.rows) {
 		return io.EOF
 	}
